@@ -243,6 +243,23 @@ def run(tier, seed, replay):
                         warnings.simplefilter("ignore")
                         res_ = mdd(DL, Rd, sc_, Od)
                     expect.append(("buffer", buf(res_, bool(res_.fortran)), res_.to_array()))
+        # matmul_dense_dia_dense: dense left operand in both orders, messy Dia right operand
+        mddr = importlib.import_module("qutip.core.data.matmul").matmul_dense_dia_dense
+        lft = pattern(rng, (int(rng.integers(1, 4)), shape[0]), "full")
+        outc = pattern(rng, (lft.shape[0], shape[1]), "full")
+        for lf in (False, True):
+            for of_ in (None, False, True):
+                for sc_ in (1, sc):
+                    Ld2 = _data.Dense(np.array(lft, order="F" if lf else "C"), copy=False)
+                    Od = None if of_ is None else _data.Dense(np.array(outc, order="F" if of_ else "C"), copy=False)
+                    req = {"a": {"rows": lft.shape[0], "cols": lft.shape[1], "fortran": bool(Ld2.fortran), "data": buf(Ld2, bool(Ld2.fortran))}, "b": dia_json(DL),
+                           "out": None if Od is None else {"rows": outc.shape[0], "cols": outc.shape[1], "fortran": bool(Od.fortran), "data": buf(Od, bool(Od.fortran))},
+                           "scale": [int(complex(sc_).real), int(complex(sc_).imag)]}
+                    lines.append("C01.matmul_dense_dia " + json.dumps(req))
+                    with warnings.catch_warnings():
+                        warnings.simplefilter("ignore")
+                        res_ = mddr(Ld2, DL, sc_, Od)
+                    expect.append(("buffer", buf(res_, bool(res_.fortran)), res_.to_array()))
         for cj in (False, True):
             lines.append("C01.transpose_dia " + json.dumps({"a": dia_json(DL), "conj": cj}))
             tr_ = _data.adjoint_dia(DL) if cj else _data.transpose_dia(DL)
